@@ -402,6 +402,10 @@ func (server *Server) getTileAttempt(ctx context.Context, httpHeaders map[string
 		if dirValue.badEtag {
 			return 500, httpHeaders, []byte("I/O Error"), rootValue.etag
 		}
+		if !dirValue.ok {
+			// the directory could not be fetched or decoded: this is a failure, not an absent tile
+			return 500, httpHeaders, []byte("I/O Error"), ""
+		}
 		directory := dirValue.directory
 		entry, ok := findTile(directory, tileID)
 		if !ok {
